@@ -10,7 +10,12 @@ rsync -a --exclude /target --exclude .git /repo/ $w/repo/
 cd /verif
 VERIF_REPO=$w/repo VERIF_EVIDENCE_DIR=$w/evidence VERIF_REPLAY_DIR=$w/replays ./check $prop "$@" > $w/log.txt 2>&1
 rc=$?
-labels=$(grep -E "^  harness=" $w/log.txt | sed 's/values=.*//' | tr '\n' ' ')
-mach=$(grep -c "MACHINERY-ERROR" $w/log.txt)
-echo "{\"seeded\": \"$id\", \"property\": \"$prop\", \"exit\": $rc, \"violations\": \"$labels\", \"machinery_errors\": $mach, \"summary\": \"$(tail -1 $w/log.txt | tr -d '"')\"}"
+python3 - "$id" "$prop" "$rc" "$w/log.txt" <<'PY'
+import json, re, sys
+sid, prop, rc, logp = sys.argv[1:5]
+text = open(logp, errors='replace').read()
+viol = ' '.join(re.sub(r'values=.*', '', l).strip() for l in text.splitlines() if l.startswith('  harness='))
+print(json.dumps({'seeded': sid, 'property': prop, 'exit': int(rc), 'violations': viol,
+                  'machinery_errors': text.count('MACHINERY-ERROR'), 'summary': text.strip().splitlines()[-1] if text.strip() else ''}))
+PY
 rm -rf $w/repo
